@@ -156,7 +156,8 @@ def report_member(ctx, V, cases, keyed_K):
             fneg = [vv for cl, vv in grp if cl == "OnArcReported"]
             flag = bool(fneg) and all(X.plane_residual_member(c["a"], c["b"], p, vv - 1, c["kz"], c["theta"]) > EPS for vv in fneg)
             sig = {"fn": "point_within_gca", "keyed": c["K"] in keyed_K and suffix == "", "polar": kinds[0] == "polar",
-                   "class": cls, "plane_residual_gt_eps": flag, "replay_group": gname, "arc_kind": kinds[0]}
+                   "class": cls, "plane_residual_gt_eps": flag, "replay_group": gname, "arc_kind": kinds[0],
+                   "meridian_plane": kinds[0] in ("meridian", "polar")}
             key = "M/K%d/%s/%s/%s%s" % (c["K"], X.vkey(c["a"]), X.vkey(c["b"]), X.vkey(p), suffix)
             for clause in sorted({cl for cl, _ in grp}):
                 ctx.violation(key, clause, detail={"failed": grp, "variants": X.M_VARIANTS, "arc_kind": kinds[0], "exact_class": cls},
@@ -178,7 +179,8 @@ def report_pairs(ctx, V, cases, keyed_K, K_of):
             flag = bool(fneg) and all(X.plane_residual_pair(c["a"], c["b"], cd[0], cd[1], vv - 1, c["kz"], c["theta"]) > EPS for vv in fneg)
             sig = {"fn": "gca_gca_intersection", "keyed": K in keyed_K and suffix == "", "polar": "polar" in kinds,
                    "class": cls, "plane_residual_gt_eps": flag, "replay_group": gname,
-                   "arc_kind": "meridian" if "meridian" in kinds else "+".join(sorted(set(kinds)))}
+                   "arc_kind": "meridian" if "meridian" in kinds else "+".join(sorted(set(kinds))),
+                   "meridian_plane": "meridian" in kinds or "polar" in kinds}
             key = "X/K%d/%s/%s/%s/%s%s" % (K, X.vkey(c["a"]), X.vkey(c["b"]), X.vkey(cd[0]), X.vkey(cd[1]), suffix)
             for clause in sorted({cl for cl, _ in grp}):
                 ctx.violation(key, clause, detail={"failed": grp, "variants": X.X_VARIANTS, "arc_kinds": list(kinds), "exact_class": cls},
@@ -197,7 +199,8 @@ def report_lat(ctx, V, cases, keyed_K, K_of):
             if not grp:
                 continue
             sig = {"fn": "extreme_gca_latitude", "keyed": K in keyed_K and suffix == "", "polar": kinds[0] == "polar",
-                   "class": "max%d/min%d" % tuple(which), "plane_residual_gt_eps": False, "replay_group": gname, "arc_kind": kinds[0]}
+                   "class": "max%d/min%d" % tuple(which), "plane_residual_gt_eps": False, "replay_group": gname, "arc_kind": kinds[0],
+                   "meridian_plane": kinds[0] in ("meridian", "polar")}
             key = "L/K%d/%s/%s%s" % (K, X.vkey(c["a"]), X.vkey(c["b"]), suffix)
             for clause in sorted({cl for cl, _ in grp}):
                 ctx.violation(key, clause, detail={"failed": grp, "variants": X.L_VARIANTS, "arc_kind": kinds[0], "which": list(which)},
